@@ -19,6 +19,21 @@ CLAIMED = {
        "meaning of torch.is_tensor / dtype identity. linear_operator re-exports are verified from the installed source (dependency). "
        "One known finding (linear_operator cholesky_jitter half value) is listed in known_findings.json.",
   technique="contract-based deductive verification: AST-extracted real functions, symbolic execution to VCs, z3 (cvc5 on unknowns)"),
+ "C11": dict(
+  category="proof",
+  text="Contract-based deductive verification of the real MultitaskMultivariateNormal code: every method is executed symbolically on its "
+       "extracted AST with symbolic n, t, batch sizes, slice bounds (incl. None / negative / out of range), int indices and index-tensor "
+       "contents, and z3 discharges postconditions stated over the abstract view (flat(i,a)=i*t+a interleaved, a*n+i otherwise): mean/variance "
+       "layout, the value layout handed to the base log density, sample layout, to_data_independent_dist blocks, constructors "
+       "(from_batch_mvn for every task_dim at batch rank <= 3, from_independent_mvns, from_repeated_mvn, expand, __init__) and d[idx] = "
+       "(mean[idx], sub-covariance of the selected pairs, exact shape) where the selected pairs come from applying the op-table meaning of torch "
+       "indexing to coordinate tensors. Batch rank and the tuple of index kinds are enumerated (stated), everything else is unbounded.",
+  design_ref="DESIGN.md section 5, C11",
+  note="Trusted: op-table meaning of torch view/reshape/transpose/permute/expand/indexing/arange/meshgrid and of BlockInterleaved/BlockDiag/Cat/"
+       "DiagLinearOperator (dense meaning); reals for floats; base-class MultivariateNormal.log_prob/rsample are callee contracts here (verified "
+       "under C10). Enumerated (not unbounded): batch rank <= 1 for indexing and <= 2 elsewhere, <= 3 for from_batch_mvn, 2-3 tasks for "
+       "from_independent_mvns, index-kind tuples. Bounded tier (real objects vs dense oracle) is reported separately and not counted.",
+  technique="contract-based deductive verification: AST-extracted real functions, symbolic execution with an elementwise tensor domain, z3 (qfnia tactic / cvc5 on unknowns)"),
 }
 REASON_NOT_BUILT = "contracts for this property are not built yet in this revision (see DESIGN.md section 9 build order); not claimed until its obligations are discharged by the checker"
 
